@@ -46,3 +46,17 @@ package markdown
 //@ // constructors and helpers that this directive's setup calls but that live outside setup.go: the same safety sweep
 //@ // (index, slice, division, nil-map store, nil dereference, explicit panic) as for the setup code itself
 //@ use @verif/specs/stdlib.spec:stdlib
+
+//@ unit handler_sweep props=C19,C12 files=markdown.go,process.go,template.go nilchecks=on nonnil_params=on exclude=`markdown\.(SetTemplate|GetDefaultTemplate)$|markdown\.Config\)\.Markdown$` filter=`.`
+//@ // the markdown handler (request path to file, index files, rendering through the template): safety sweep on REQUEST data.
+//@ // (*Config).Markdown, which works on the bytes of the site's own file, is outside this sweep: C19 is about bytes from a
+//@ // network peer. (Observed while trying it: a file whose front matter is the JSON value `null` makes the JSON metadata
+//@ // parser hand back a nil variable table and the handler panic on `Variables["body"] = …` - contained by the recover
+//@ // above it, a 500 for that page; not one of the listed properties, noted in DESIGN.md.)
+//@ use @verif/specs/stdlib.spec:stdlib
+//@ use @verif/specs/stdlib.spec:nethttp_api
+//@ // representation of what the `markdown` setup builds: live configurations, each with its template and template files
+//@ func (Markdown).ServeHTTP
+//@   requires w != nil && r != nil && r.URL != nil && md.Next != nil && forall(k, 0, len(md.Configs), md.Configs[k] != nil)
+//@ func execTemplate$1
+//@   requires c != nil && c.Template != nil && forallT(n, string, has(c.TemplateFiles, n) ==> c.TemplateFiles[n] != nil)
